@@ -577,10 +577,31 @@ func checkSampleWrite(c *Ctx, rule string) {
 			if id, ok := as.Lhs[0].(*ast.Ident); !ok || info.Uses[id] != kfObj {
 				return true
 			}
-			if be, ok := unparen(as.Rhs[0]).(*ast.BinaryExpr); ok && be.Op == token.EQL {
-				if id, ok := unparen(be.X).(*ast.Ident); ok && info.Uses[id] == tsObj && strings.HasSuffix(types.ExprString(be.Y), "savedKf.Timestamp") {
-					okKfDef = true
+			// ts == t.savedKf.Timestamp, possibly preceded by t.savedKf != nil
+			neq, nother := 0, 0
+			for _, cj := range conjuncts(as.Rhs[0]) {
+				be, isB := unparen(cj).(*ast.BinaryExpr)
+				switch {
+				case isB && be.Op == token.EQL:
+					x, y := unparen(be.X), unparen(be.Y)
+					if id, isId := y.(*ast.Ident); isId && info.Uses[id] == tsObj {
+						x, y = y, x
+					}
+					if id, isId := x.(*ast.Ident); isId && info.Uses[id] == tsObj && strings.HasSuffix(types.ExprString(y), "savedKf.Timestamp") {
+						neq++
+					} else {
+						nother++
+					}
+				case isB && be.Op == token.NEQ && isNilIdent(info, be.Y) && strings.HasSuffix(types.ExprString(unparen(be.X)), "savedKf"):
+					// the saved keyframe exists
+				default:
+					if tv := info.Types[cj]; tv.Value == nil {
+						nother++
+					}
 				}
+			}
+			if neq == 1 && nother == 0 {
+				okKfDef = true
 			}
 			return true
 		})
